@@ -82,6 +82,9 @@ func (d *PathDecoder) SignatureAtPos(filename string, pos hcl.Pos) (*lang.Functi
 			trimmedBytes := bytes.TrimRight(recoveredBytes, " \t\n")
 			if string(trimmedBytes) == "," {
 				activePar = lastArgIdx + 1
+			} else {
+				// only blanks between the last argument and the cursor
+				activePar = lastArgIdx
 			}
 		}
 
